@@ -1,8 +1,9 @@
 SPECIFICATION Spec
 CONSTANTS
-  TableIds = {1, 2, 3, 4}
-  CollarIds = {1, 2, 3}
+  TableIds = {1, 2, 3}
+  CollarIds = {2, 3}
   QMax2 = 9
+  MaxSteps = 3
   Deviations = {}
 VIEW vw
 INVARIANT ReadIsCurrent
